@@ -393,7 +393,10 @@ class ClientCalls(Suite):
                     if rkind == "ok-dup":
                         rscript.append([d1 + rng.choice([0, 1, 700]), {"k": "resp", "id": "$ID", "p": C.OPS[op]["payload"](fresh())}])
                 elif rkind == "error":
-                    rscript.append([d1, {"k": "err", "id": "$ID", "code": rng.choice(self.CODES), "msg": rng.choice(["no", "", "Unsupported protocol version", "x" * 300])}])
+                    err = {"k": "err", "id": "$ID", "code": rng.choice(self.CODES), "msg": rng.choice(["no", "", "Unsupported protocol version", "x" * 300])}
+                    if rng.random() < 0.4:  # `data`, also error-shaped (a relayed error): the OUTER code is the request's
+                        err["data"] = rng.choice([{"code": -32601, "message": "Method not found"}, {"detail": [1, None]}, "text", {"code": 5, "message": "inner"}])
+                    rscript.append([d1, err])
                 rscript.sort(key=lambda x: x[0])
                 calls.append({"op": op, "gap": rng.choice([0, 0, 1, 700]), "initScript": iscript, "reqScript": rscript})
             out.append({"tie": rng.choice(["events", "timers", "io"]), "calls": calls, "debug": rng.random() < 0.25})
